@@ -28,6 +28,26 @@ Proof.
   rewrite Z.shiftl_mul_pow2 by lia. rewrite Z.shiftr_div_pow2 by lia. reflexivity.
 Qed.
 
+(* x & ~(al-1) rounds down to a multiple of al *)
+Lemma align_down_eq x k : 0 <= k < 64 -> 0 <= x < two64 -> align_down x (2 ^ k) = x / 2 ^ k * 2 ^ k.
+Proof.
+  intros Hk Hx. unfold align_down.
+  assert (Hp : 0 < 2 ^ k) by (apply Z.pow_pos_nonneg; lia).
+  assert (HX : 0 <= x < 2 ^ 64) by (rewrite <- two64_eq; lia).
+  replace (2 ^ k - 1) with (Z.ones k) by (rewrite Z.ones_equiv; lia).
+  unfold w64. rewrite two64_eq. rewrite <- (Z.land_ones (Z.lnot (Z.ones k)) 64) by lia.
+  rewrite (Z.land_comm (Z.lnot (Z.ones k))). rewrite Z.land_assoc.
+  rewrite (Z.land_ones x 64) by lia. rewrite (Z.mod_small x) by lia.
+  rewrite <- Z.ldiff_land. rewrite Z.ldiff_ones_r by lia.
+  rewrite Z.shiftl_mul_pow2 by lia. rewrite Z.shiftr_div_pow2 by lia. reflexivity.
+Qed.
+
+Lemma align_down16 x : 0 <= x < two64 -> align_down x 16 = x - x mod 16.
+Proof.
+  intros Hx. change 16 with (2 ^ 4) at 1. rewrite align_down_eq by lia. change (2 ^ 4) with 16.
+  pose proof (Z.div_mod x 16 ltac:(lia)). lia.
+Qed.
+
 Lemma align_forward_spec a al :
   pow2 al -> 0 <= a -> a + al <= two64 ->
   a <= align_forward a al < a + al /\ align_forward a al mod al = 0.
